@@ -34,3 +34,77 @@ Print Assumptions C14_coordinates_accepted.
 Print Assumptions C14_san_label_shape.
 Print Assumptions C14_printed_labels_accepted.
 Print Assumptions C14_printed_castle_accepted.
+
+(* ---- the Game-API part, closed against the RULES (C14Closed.v).  Inv = the reachable-state
+   invariant (executable: invb), fine n = no counter overflows within n more plies.
+   C14Closed.played g m g' says: m is a legal move of the rules, the history grew by exactly m, the
+   search depth is unchanged, the caller's board received apply_move m, its abstraction is the
+   rules' successor (turn not flipped; flipped it is succ_turn), and the invariant holds again. ---- *)
+From ChessV Require Import Types Board Moves MoveGen Abs Game.
+From ChessV Require Rules Congr InvProofs2 C14Closed.
+
+Section C14_closed.
+Variable T : ztable.
+Variables rook_t bishop_t : N -> N -> N.
+Hypothesis rook_t_ref : forall x o, x < 64 -> rook_t x o = Rays.rook_ref x o.
+Hypothesis bishop_t_ref : forall x o, x < 64 -> bishop_t x o = Rays.bishop_ref x o.
+Notation legal g := (Rules.legal_moves_for (abstract (gboard g)) (turn (gboard g))).
+
+Theorem C14_coords_accepted_iff_legal : forall g f t,
+  InvProofs2.Inv rook_t bishop_t (gboard g) -> Congr.fine 0 (gboard g) ->
+  ((exists m g', apply_by_coords T rook_t bishop_t g f t = GOk (m, g')) <->
+   (exists m, In m (legal g) /\ mv_from m = f /\ mv_to m = t)).
+Proof. exact (C14Closed.C14_coords_accepted_iff_legal T rook_t bishop_t rook_t_ref bishop_t_ref). Qed.
+
+Theorem C14_coords_ok_or_invalid : forall g f t,
+  InvProofs2.Inv rook_t bishop_t (gboard g) -> Congr.fine 0 (gboard g) ->
+  (exists m g', apply_by_coords T rook_t bishop_t g f t = GOk (m, g'))
+  \/ apply_by_coords T rook_t bishop_t g f t = GInvalidMove.
+Proof. exact (C14Closed.C14_coords_ok_or_invalid T rook_t bishop_t rook_t_ref bishop_t_ref). Qed.
+
+Theorem C14_coords_plays_that_move : forall g f t m g',
+  InvProofs2.Inv rook_t bishop_t (gboard g) -> Congr.fine 0 (gboard g) ->
+  apply_by_coords T rook_t bishop_t g f t = GOk (m, g') ->
+  mv_from m = f /\ mv_to m = t /\ C14Closed.played T rook_t bishop_t g m g'.
+Proof. exact (C14Closed.C14_coords_plays_that_move T rook_t bishop_t rook_t_ref bishop_t_ref). Qed.
+
+Theorem C14_coords_promotion_plays_queen : forall g f t cap pp,
+  InvProofs2.Inv rook_t bishop_t (gboard g) -> Congr.fine 0 (gboard g) ->
+  In (Promo f t cap pp) (legal g) ->
+  exists g', apply_by_coords T rook_t bishop_t g f t = GOk (Promo f t cap Queen, g')
+             /\ C14Closed.played T rook_t bishop_t g (Promo f t cap Queen) g'.
+Proof. exact (C14Closed.C14_coords_promotion_plays_queen T rook_t bishop_t rook_t_ref bishop_t_ref). Qed.
+
+Theorem C14_notation_accepted_iff_label : forall g s,
+  InvProofs2.Inv rook_t bishop_t (gboard g) -> Congr.fine 1 (gboard g) ->
+  ((exists m g', apply_by_notation T rook_t bishop_t g s = GOk (m, g')) <->
+   (exists m, In m (legal g) /\ C14Closed.legal_label (abstract (gboard g)) m = s)).
+Proof. exact (C14Closed.C14_notation_accepted_iff_label T rook_t bishop_t rook_t_ref bishop_t_ref). Qed.
+
+Theorem C14_notation_ok_or_invalid : forall g s,
+  InvProofs2.Inv rook_t bishop_t (gboard g) -> Congr.fine 1 (gboard g) ->
+  (exists m g', apply_by_notation T rook_t bishop_t g s = GOk (m, g'))
+  \/ apply_by_notation T rook_t bishop_t g s = GInvalidMove.
+Proof. exact (C14Closed.C14_notation_ok_or_invalid T rook_t bishop_t rook_t_ref bishop_t_ref). Qed.
+
+Theorem C14_notation_plays_that_move : forall g s m g',
+  InvProofs2.Inv rook_t bishop_t (gboard g) -> Congr.fine 1 (gboard g) ->
+  apply_by_notation T rook_t bishop_t g s = GOk (m, g') ->
+  C14Closed.legal_label (abstract (gboard g)) m = s
+  /\ (forall m', In m' (legal g) -> C14Closed.legal_label (abstract (gboard g)) m' = s -> m' = m)
+  /\ C14Closed.played T rook_t bishop_t g m g'.
+Proof. exact (C14Closed.C14_notation_plays_that_move T rook_t bishop_t rook_t_ref bishop_t_ref). Qed.
+End C14_closed.
+
+Check @C14Closed.C14_coords_generator_returns_board.
+Check @C14Closed.C14_notation_generator_returns_board.
+Print C14Closed.played.
+Print C14Closed.legal_label.
+
+Print Assumptions C14_coords_accepted_iff_legal.
+Print Assumptions C14_coords_ok_or_invalid.
+Print Assumptions C14_coords_plays_that_move.
+Print Assumptions C14_coords_promotion_plays_queen.
+Print Assumptions C14_notation_accepted_iff_label.
+Print Assumptions C14_notation_ok_or_invalid.
+Print Assumptions C14_notation_plays_that_move.
